@@ -153,6 +153,11 @@ class Result:
 # ------------------------------------------------------------------ worker side
 def _worker_init(env):
     os.environ.update(env)
+    # the library keys RNG seeding on multiprocessing.current_process()._identity (maze_dataset.py:_maze_gen_init_worker);
+    # our workers must look like an ordinary top-level process, otherwise results differ from a replay in a fresh process
+    import multiprocessing
+
+    multiprocessing.current_process()._identity = ()
     bind_repo()
 
 
